@@ -11,10 +11,20 @@ TIERS = {'quick': 1, 'thorough': 12}
 THOROUGH = {'C02': 4, 'C03': 4, 'C08': 6, 'C11': 5, 'C12': 6, 'C13': 2, 'C14': 3, 'C15': 6, 'C17': 5, 'C20': 6}
 _CURRENT = [None]
 
+_SRC_CHANGED = []
+
+def source_changed():
+    """functions of pyham that differ from the source the model was written against (harness/fingerprint.py)"""
+    if not _SRC_CHANGED:
+        import fingerprint
+        _SRC_CHANGED.append(fingerprint.changed(ob.REPO))
+    return _SRC_CHANGED[0]
+
 def budget(tier, quick_n):
     if tier == 'thorough':
         return quick_n * THOROUGH.get(_CURRENT[0], TIERS['thorough'])
-    return quick_n
+    # the implementation has been edited since the model was written: sample three times as much
+    return quick_n * 3 if source_changed() else quick_n
 
 def mix_params(rng):
     r = rng.random()
